@@ -31,7 +31,9 @@ TWriteFailed == /\ Is("WriteFailed") /\ Adv
                 /\ file' = [file EXCEPT ![Ev.type] = [FileOf(Ev.seen) EXCEPT !.byDaemon = file[Ev.type].byDaemon]]
                 /\ last' = [last EXCEPT ![Ev.type] = <<>>] /\ bad' = {} /\ UNCHANGED cfg
 
-TNext == TReset \/ TWrite \/ TWriteFailed
+TExternal == /\ Is("External") /\ Adv /\ External(Ev.type, FileOf(Ev.seen))
+
+TNext == TReset \/ TWrite \/ TWriteFailed \/ TExternal
 Report == (bad' \cap Enforce # {}) => PrintT(<<"BAD", bad' \cap Enforce, l>>)
 TSpec == TInit /\ [][TNext /\ Report]_tvars
 Accepted == LET d == TLCGet("stats").diameter IN
